@@ -34,6 +34,6 @@ WalkOK == WalkMatchesSpec(ch, Clip)
 \* a proposer share is credited for a commit at every offset of the window (vacuity guard, must be VIOLATED per offset)
 HasCommit == \E c \in Numbers(ch) : ch[c].commits # <<>>
 EmitChain == (Emit /\ Len(ch) = MaxLen /\ HasCommit) =>
-               PrintT(<<"CHAIN", ToJson([ch |-> ch, rewards |-> [t \in Numbers(ch) |->
+               PrintT(<<"CHAIN", ToJson([ch |-> ch, classes |-> Classes(ch), rewards |-> [t \in Numbers(ch) |->
                           IF Finalised(ch, t) THEN [cf |-> CommitterFees(ch, t), pf |-> ProposerFees(ch, t)] ELSE [cf |-> -1, pf |-> -1]]])>>)
 =============================================================================
